@@ -69,6 +69,49 @@ class FakeStdin:
             self.buffer = io.BytesIO(data)
 
 
+def mono_view_class():
+    """A user-written adapter as users write them: the first channel of a multi-channel source.  It hands the inner
+    source's parameters to AudioSource.__init__ and overrides the public `channels` property (and read / position
+    plumbing); everything it reports through the public interface is consistent."""
+    from auditok.io import AudioSource
+
+    class MonoView(AudioSource):
+        def __init__(self, inner):
+            super().__init__(inner.sampling_rate, inner.sample_width, inner.channels)
+            self._inner = inner
+
+        @property
+        def channels(self):
+            return 1
+
+        def open(self):
+            self._inner.open()
+
+        def close(self):
+            self._inner.close()
+
+        def is_open(self):
+            return self._inner.is_open()
+
+        def read(self, size):
+            b = self._inner.read(size)
+            if b is None:
+                return None
+            w, n = self._inner.sample_width, self._inner.channels
+            return b"".join(b[i : i + w] for i in range(0, len(b), w * n))
+
+    return MonoView
+
+
+def interleave_with_noise(mono, sw):
+    """Stereo bytes whose first channel is `mono` and whose second channel is something else (loud everywhere)."""
+    out = bytearray()
+    for i in range(0, len(mono), sw):
+        out += mono[i : i + sw]
+        out += int(97 + (i // sw) % 23).to_bytes(sw, "little", signed=True)
+    return bytes(out)
+
+
 class PipeStdin:
     """sys.stdin stand-in backed by a real pipe (it has a file descriptor, as the real one does): a feeder thread
     writes one chunk, waits until the reader has drained the pipe, writes the next, ... and closes.  Every read on
